@@ -110,6 +110,8 @@ theorem zipStep_refines (hk : 0 < k) (rz : RZip α k) (st : Step α k) :
   | next w => simp [Zip.step, RZip.step, next_refines hk]
   | nextBack w => simp [Zip.step, RZip.step, nextBack_refines hk]
   | len => simp [Zip.step, RZip.step, Zip.len, zipOf, firstLen_colsOf hk]
+  | sizeHint => simp [Zip.step, RZip.step, Zip.sizeHint, zipOf, firstLen_colsOf hk]
+  | count => simp [Zip.step, RZip.step, Zip.count, zipOf, firstLen_colsOf hk]
 
 theorem zipRun_refines (hk : 0 < k) (rz : RZip α k) (script : List (Step α k)) :
     (zipOf rz).run script = (zipOf (rz.run script).1, (rz.run script).2) := by
@@ -222,6 +224,27 @@ theorem step_refines (hk : 0 < k) (rs : List (Row α k)) (op : Op α k) :
     have : (colsOf rs).map List.length = Vector.replicate k rs.length := by
       apply Vector.ext; intro j hj; simp
     simp [step, stepRef, firstLen_colsOf hk, this]
+  | forgetDrain r script =>
+    have h := allSome_resolve hk rs r (forgetCol r) (fun ab c => (c.take ab.1, (c.take ab.2).drop ab.1)) (fun c => rfl)
+    simp only [step, stepRef, h]
+    cases hr : r.resolve rs.length with
+    | none =>
+      simp only [Option.map_none]
+      refine Prod.ext ?_ rfl
+      apply Vector.ext
+      intro j hj
+      have : ((colsOf rs).map (drainCol r))[j] = none := by simp [drainCol, hr]
+      simp only [drainPanicState, Vector.getElem_ofFn, this]
+      split <;> rfl
+    | some ab =>
+      simp only [Option.map_some]
+      have e1 : (Vector.ofFn fun j : Fin k => ((rs.map (·[j.val])).take ab.1, ((rs.map (·[j.val])).take ab.2).drop ab.1)).map (·.1)
+          = colsOf (rs.take ab.1) := by
+        apply Vector.ext; intro j hj; simp [List.map_take]
+      have e2 : (Vector.ofFn fun j : Fin k => ((rs.map (·[j.val])).take ab.1, ((rs.map (·[j.val])).take ab.2).drop ab.1)).map (·.2)
+          = colsOf ((rs.take ab.2).drop ab.1) := by
+        apply Vector.ext; intro j hj; simp [List.map_take, List.map_drop]
+      rw [e1, e2, runRead_refines hk]
 
 /-- arbitrary histories -/
 theorem run_refines (hk : 0 < k) (rs : List (Row α k)) (ops : List (Op α k)) :
